@@ -141,9 +141,10 @@ func PrepareQuery(ctx context.Context, typ Type, selectionSet *SelectionSet) err
 				if selection.SelectionSet != nil {
 					return NewClientError(`scalar field "__typename" must have no selection`)
 				}
-				for _, fragment := range selectionSet.Fragments {
-					fragment.SelectionSet.Selections = append(fragment.SelectionSet.Selections, selection)
-				}
+				// The union-level __typename is resolved together with the member's
+				// fragments in resolveUnionBatch; it must not be appended to the
+				// fragments themselves, which may be shared with other parts of the
+				// query (and would grow on every re-validation).
 				continue
 			}
 			return NewClientError(`unknown field "%s"`, selection.Name)
